@@ -1280,6 +1280,99 @@ def check_functions(ctx, st, progs, tag):
             st.n["fn_vm_equal"] += 1
 
 
+
+# ------------------------------------------------------------------------------------------------------------------
+# round 9: scale families (closed-form / lexical-scoping oracle, proved pipeline, FullCompile tie) and aliasing operands
+
+def _scale_mod():
+    """tools/props/C05_scale.py (generators of the round-9 families), whatever way this plug-in was loaded"""
+    import importlib.util
+    import sys
+    if "C05_scale" in sys.modules:
+        return sys.modules["C05_scale"]
+    spec = importlib.util.spec_from_file_location("C05_scale", os.path.join(os.path.dirname(os.path.abspath(__file__)), "C05_scale.py"))
+    mod = importlib.util.module_from_spec(spec)
+    spec.loader.exec_module(mod)
+    sys.modules["C05_scale"] = mod
+    return mod
+
+
+def scale_cases(rng, quick):
+    """zone programs: every size of the ladder x every placement x (random zone + directed tails)"""
+    SC = _scale_mod()
+    zone = []
+    k = 0
+    for size in (0,) + SC.LADDER:
+        for where in ('fn', 'block', 'lambda', 'inner-fn'):
+            ds = [None, k % 4, (k + 1 + rng.randrange(3)) % 4] if quick else [None, None, None, 0, 1, 2, 3]
+            k += 1
+            for d in ds:
+                zone.append(SC.zone_program(rng, size, where, d))
+    ladder = SC.ladder_programs(rng, SC.LADDER, (17, 300, 1100, 5000))
+    return zone, ladder
+
+
+def check_oracle(ctx, st, cases, tag, what):
+    """real VM against an outcome known in closed form: (source, expected canonical outcome, meta)"""
+    binary = ctx.harness("release")
+    recs = yvlib.run_harness(binary, ["run - " + hx(c[0]) for c in cases], case_timeout_ms=30000)
+    redo = [i for i, r in enumerate(recs) if r.result[0] == "crash"]
+    for i in redo:      # a case that timed out under load is re-run alone before it is believed
+        recs[i] = yvlib.run_harness(binary, ["run - " + hx(cases[i][0])], shards=1, case_timeout_ms=120000)[0]
+    bad = 0
+    for (src, want, meta), rec in zip(cases, recs):
+        st.n["programs"] += 1
+        st.n["scale_oracle_compared"] = st.n.get("scale_oracle_compared", 0) + 1
+        st.shapes.add(meta[:3] if meta[0] == 'ladder' else meta[:3] + (meta[4] is not None,))
+        ic = impl_canon(rec)
+        if ic == want:
+            st.n["scale_oracle_equal"] = st.n.get("scale_oracle_equal", 0) + 1
+        else:
+            bad += 1
+            if bad <= 3:
+                ctx.violation(what, input=src, expected=want, actual=ic, meta=str(meta))
+    return bad
+
+
+def check_scale(ctx, st, rng, quick, tag):
+    import time as _t
+    t0 = _t.time()
+    zone, ladder = scale_cases(rng, quick)
+    log("[C05] scale: %d zone programs (sizes 0, 17 .. 255), %d ladder programs" % (len(zone), len(ladder)))
+    nv = len(ctx.violations)
+    check_oracle(ctx, st, zone, tag + "z", "a program with many live locals (shadowing at every depth, ended blocks, re-used slots) "
+                 "prints something else than lexical scoping gives (the padding locals have fresh names: the lines are the same at every size)")
+    check_oracle(ctx, st, ladder, tag + "l", "the result at size m is not the closed-form function of m")
+    # the same zone programs through the proved pipeline: bytes vs FnCompile, FnSem / FnVM vs the real VM
+    if len(ctx.violations) == nv or not quick:
+        check_functions(ctx, st, [(c[0], c[2]) for c in zone], tag + "zf")
+    # ... and through the model of the WHOLE compiler (a resolver change shows as different GetLocal / SetLocal operands)
+    try:
+        import fullcompile_corr as fc
+        sub = zone if not quick else [c for i, c in enumerate(zone) if i % 3 == 0]
+        srcs = [("scale:%s" % (c[2],), c[0].encode()) for c in sub]
+        fst, bad = fc.run_all(ctx.harness("release"), srcs, tag="C05fullcompile")
+        failed = {b["name"] for b in bad if b.get("why") == "the model did not evaluate"}
+        if failed:
+            st2, bad2 = fc.run_all(ctx.harness("release"), [x for x in srcs if x[0] in failed], tag="C05fullcompile_retry")
+            bad = [b for b in bad if b["name"] not in failed] + bad2
+            fst["ok_identical"] += st2.get("ok_identical", 0)
+        for b in [b for b in bad if not b.get("soft")][:5]:
+            ctx.corr_broken.append("FullCompile: model and compiler.rs disagree on %s: %s" % (b["name"], b["why"]))
+        st.n["scale_fullcompile_identical"] = fst.get("ok_identical", 0)
+        st.n["scale_fullcompile_cases"] = len(srcs)
+        st.n["scale_seconds"] = round(_t.time() - t0, 1)
+    except Exception as e:       # the tie is another owner's tool: its absence is noted, not an alarm
+        ctx.notes.append("FullCompile tie on the scale programs skipped: %r" % (e,))
+
+
+def alias_sources(rng, quick, st):
+    SC = _scale_mod()
+    progs = SC.alias_programs(rng, not quick)
+    for _, meta in progs:
+        st.shapes.add(meta[:4])
+    return [p for p, _ in progs]
+
 # kinds of operands
 EX = {'nil': ['nil'], 'bool': ['true', 'false'], 'num': ['3', '1.5', '(0/0)', '(-1/0)', '(-7)', '64', '(-0)', '0'],
       'str': ['"ab"', '""', '"é"'], 'range': ['(1..3)'], 'tup': ['(1, 2)', '()'], 'vec': ['[1, 2]', '[]'], 'fn': ['print']}
@@ -1427,6 +1520,9 @@ def run(ctx):
     fprogs += [(' '.join(fg.program(i % 2 == 1)), ('fn', i)) for i in range(n_fn)]
     check_functions(ctx, st, fprogs, 'f')
     ctx.violations[:] = ctx.violations[:5]
+    # 2c. scale families
+    check_scale(ctx, st, rng, quick, 'sc')
+    ctx.violations[:] = ctx.violations[:5]
     # 3. grouping: decompile the real bytes
     n_dec = max(50, int((500 if quick else 6000) * SCALE))
     cases = []
@@ -1451,6 +1547,7 @@ def run(ctx):
     n_rec = max(30, int((250 if quick else 3000) * SCALE))
     bey = (directed_beyond(g, max(20, int((40 if quick else 600) * SCALE)), max(30, int((80 if quick else 1200) * SCALE)), n_try, n_rec)
            + list(BEYOND_FIXED) + [beyond_program(g) for _ in range(n_bey)])
+    bey += alias_sources(rng, quick, st)
     check_beyond(ctx, st, bey, "b")
     ctx.violations[:] = ctx.violations[:5]
     if len(ctx.corr_broken) > 8:
@@ -1472,6 +1569,8 @@ def run(ctx):
         "recovery_shapes": len([s for s in st.shapes if s[0] in ("recover", "recover1")]),
         "capture_exit_shapes": len([s for s in st.shapes if s[0] in ("capexit", "capexit-decl")]),
         "nested_interpolation_shapes": len([s for s in st.shapes if s[0] in ("interp-nest", "brace") or s[:2] == ("fn", "interp-nest")]),
+        "scale_shapes": len([s for s in st.shapes if s[0] in ("zone", "ladder")]),
+        "aliasing_shapes": len([s for s in st.shapes if s[0] == "alias"]),
         "function_shapes": len([s for s in st.shapes if "fn" in s[:2] or "return" in s[:2] or "var-lambda" in s[:2]]),
         "samples": [progs[len(PROBES)][0], " ".join(structured[0])[:300], " ".join(structured[n_rand])[:300], bey[-1][:300],
                     show(cases[0][0])[:200]],
@@ -1506,6 +1605,10 @@ def search(ctx):
     check_fragment(ctx, st, [(p, ("probe",)) for p in PROBES], "sp")
     if not ctx.violations:
         check_functions(ctx, st, directed_fn(fg, int(200 * SCALE)), "sf")
+    if not ctx.violations:
+        check_scale(ctx, st, ctx.rng, True, "ssc")
+    if not ctx.violations:
+        check_beyond(ctx, st, alias_sources(ctx.rng, True, st), "sal")
     if not ctx.violations:
         check_beyond(ctx, st, directed_beyond(fg, int(150 * SCALE), int(250 * SCALE), int(400 * SCALE), int(400 * SCALE)), "sb")
     ctx.violations[:] = ctx.violations[:5]
